@@ -31,7 +31,7 @@ fn band(run: &Run) -> f64 {
 
 fn decl(run: &Run, words: usize, units: usize, discrete: bool) -> Decl {
     let t = run.thorough();
-    Decl { max_words: words, max_units: units, jb: if t { 64 } else { 24 }, jw: if t { 32 } else { 12 }, gu: if t { [1 << 16, 256, 64, 64] } else { [1 << 13, 64, 32, 32] }, gw: if t { 128 } else { 32 }, discrete }
+    Decl { max_words: words, max_units: units, jb: if t { 64 } else { 24 }, jw: if t { 32 } else { 12 }, gu: if t { [1 << 16, 256, 64, 64] } else { [1 << 13, 64, 32, 32] }, gw: if t { 128 } else { 32 }, discrete, max_leaves: if t { 40_000_000 } else { 1_500_000 }, max_runs: if t { 1_500_000_000 } else { 25_000_000 } }
 }
 
 fn cases(run: &Run) -> Vec<Case> {
@@ -88,7 +88,7 @@ fn cases(run: &Run) -> Vec<Case> {
         v.push(Case { law: "ChiSquared", params: format!("({})", k), regime, sample: Box::new(move || d.sample()), decl: decl(run, 1, 4, false), cdf: Box::new(move |x| chi2_cdf(k as f64, x)), support: (0.0, inf), degenerate: None });
     }
     // Poisson PTRS
-    for &l in &[10.0, 42.0, 149.0, 150.0, 500.0] {
+    for &l in &[10.0, 42.0, 149.0, 150.0, 500.0, 1500.0, 20000.0] {
         let d = Poisson::new(l);
         v.push(Case { law: "Poisson", params: format!("({})", l), regime: if l >= 150.0 { "rate>=150 (PTRS)" } else { "rate>=10 (PTRS)" }, sample: Box::new(move || d.sample()), decl: decl(run, 0, 2, true), cdf: Box::new(move |x| poisson_cdf(l, x)), support: (0.0, inf), degenerate: None });
     }
@@ -849,76 +849,90 @@ pub fn run(run: &Run) {
     run.rule("every sampler × a parameter lattice hitting each algorithm branch; the RNG answers are enumerated: all 128 ziggurat layers × 2 signs × a refined partition of the 24-bit field, unit floats partitioned by continuation signature (gates located by bisection, value-producing draws subdivided 2^13 (2^16) fold, integer outputs split at every jump), bounded integers exhaustively; rejection bound 0 (a request beyond one loop iteration is a memoryless restart, its mass reported; loop-free samplers are declared generously (1 word, 2 units) so that a rewritten draw structure is still explored); the normalised leaf measure is compared with the reference CDF within the DKW band; two-stage samplers (Beta, T) through Q×Q quantile-reduced stage scripts run on the real composite sampler; multiplication-method Poisson path-wise against the product-of-uniforms model on all scripts of depth 6 (7) over 8 letters; MVN (sample and sample_n): the affine map of the scripted normals is recovered column by column and must satisfy A·Aᵀ = Σ and x = μ + A·z on every script over 5 words per coordinate, rows of bulk draws whitened with A must return the scripted normals, and (sampled, the property's own criterion) every whitened coordinate and two projections of 2e5 (4e6) draws lie in the DKW band; non-trivial = leaf reached through more than one draw");
     run.bound("DKW band", format!("{:.5}", eps));
     let cs = cases(run);
-    cs.par_iter().for_each(|c| {
-        run_case(run, c, eps);
-    });
     run.sample(|| "Gamma(5, 1): word partition 128 layers x 2 signs x (24+12) cells, wedge gate located on the following float, acceptance gate on u; leaves are uniform segments with exact masses".to_string());
     // samplers composed of stages: quantile-reduced stage scripts run on the real composite sampler
     let q = run.tier.pick(384usize, 2048usize);
     run.bound("quantile reduction", format!("Q = {}", q));
     // Gamma with shape < 1 (boost) and ChiSquared(1)
-    let small: Vec<(f64, f64)> = vec![(0.2, 1.0), (0.5, 1.0), (0.9, 4.0)];
-    small.par_iter().for_each(|&(a, b)| {
-        let q1 = run.tier.pick(512usize, 1536usize);
-        let (core, u, whole) = (Gamma::new(a + 1.0, b), Uniform::new(0.0, 1.0), Gamma::new(a, b));
-        let res = (|| {
-            let s1 = reps_of(run, &format!("Gamma({}, {}) [boost core]", a + 1.0, b), &move || core.sample(), decl(run, 1, 4, false), q1)?;
-            let s2 = reps_of(run, "Uniform(0, 1) [boost draw]", &move || u.sample(), decl(run, 0, 1, false), 2 * q1)?;
-            compose(run, &[s1, s2], &move || whole.sample())
-        })();
-        judge_composed(run, "Gamma", format!("({}, {})", a, b), if a < 1.0 / 3.0 { "shape<1/3" } else { "shape<1" }, res, &move |x| gamma_cdf(a, b, x), (0.0, f64::INFINITY), eps, &move || whole.sample());
+    // the sections are independent: run them as concurrent tasks (each case installs and removes its
+    // own thread-local answer script)
+    rayon::scope(|sc| {
+        sc.spawn(|_| {
+            cs.par_iter().for_each(|c| {
+                run_case(run, c, eps);
+            });
+        });
+        sc.spawn(|_| {
+            let small: Vec<(f64, f64)> = vec![(0.2, 1.0), (0.5, 1.0), (0.9, 4.0)];
+            small.par_iter().for_each(|&(a, b)| {
+                let q1 = run.tier.pick(512usize, 1536usize);
+                let (core, u, whole) = (Gamma::new(a + 1.0, b), Uniform::new(0.0, 1.0), Gamma::new(a, b));
+                let res = (|| {
+                    let s1 = reps_of(run, &format!("Gamma({}, {}) [boost core]", a + 1.0, b), &move || core.sample(), decl(run, 1, 4, false), q1)?;
+                    let s2 = reps_of(run, "Uniform(0, 1) [boost draw]", &move || u.sample(), decl(run, 0, 1, false), 2 * q1)?;
+                    compose(run, &[s1, s2], &move || whole.sample())
+                })();
+                judge_composed(run, "Gamma", format!("({}, {})", a, b), if a < 1.0 / 3.0 { "shape<1/3" } else { "shape<1" }, res, &move |x| gamma_cdf(a, b, x), (0.0, f64::INFINITY), eps, &move || whole.sample());
+            });
+        });
+        sc.spawn(|_| {
+            {
+                let q1 = run.tier.pick(512usize, 1536usize);
+                let (core, u, whole) = (Gamma::new(1.5, 0.5), Uniform::new(0.0, 1.0), ChiSquared::new(1));
+                let res = (|| {
+                    let s1 = reps_of(run, "Gamma(1.5, 0.5) [boost core]", &move || core.sample(), decl(run, 1, 4, false), q1)?;
+                    let s2 = reps_of(run, "Uniform(0, 1) [boost draw]", &move || u.sample(), decl(run, 0, 1, false), 2 * q1)?;
+                    compose(run, &[s1, s2], &move || whole.sample())
+                })();
+                judge_composed(run, "ChiSquared", "(1)".into(), "dof=1 (gamma shape<1)", res, &|x| chi2_cdf(1.0, x), (0.0, f64::INFINITY), eps, &move || whole.sample());
+            }
+        });
+        sc.spawn(|_| {
+            // (the last two pairs are reached through the setters from another parameter pair: the cached
+            // generators must follow)
+            let comps: Vec<(f64, f64, bool)> = vec![(2.0, 4.0, false), (1.0, 1.0, false), (5.0, 1.5, false), (0.5, 0.5, false), (0.2, 3.0, false), (2.0, 4.0, true), (0.5, 3.0, true)];
+            comps.par_iter().for_each(|&(a, b, via)| {
+                let bt = if via {
+                    let mut t = Beta::new(b + 0.75, a + 2.0);
+                    t.set_alpha(a);
+                    t.set_beta(b);
+                    t
+                } else {
+                    Beta::new(a, b)
+                };
+                let regime = if a < 1.0 || b < 1.0 { "gamma shape<1" } else { "gamma shape>=1" };
+                let res = (|| {
+                    let s1 = gamma_reps(run, a, 1.0, q)?;
+                    let s2 = gamma_reps(run, b, 1.0, q)?;
+                    compose(run, &[s1, s2], &move || bt.sample())
+                })();
+                judge_composed(run, "Beta", format!("({}, {}){}", a, b, if via { " reached through set_alpha, set_beta" } else { "" }), regime, res, &move |x| beta_cdf(a, b, x), (0.0, 1.0), eps, &move || bt.sample());
+            });
+        });
+        sc.spawn(|_| {
+            let nus = [(1.0, false), (2.0, false), (5.0, false), (30.0, false), (5.0, true)];
+            nus.par_iter().for_each(|&(nu, via)| {
+                let t = if via {
+                    let mut t = T::new(nu + 1.5);
+                    t.set_dof(nu);
+                    t
+                } else {
+                    T::new(nu)
+                };
+                let n = Normal::default();
+                let regime = if nu < 2.0 { "gamma shape<1" } else { "gamma shape>=1" };
+                let res = (|| {
+                    let s1 = reps_of(run, "Normal(0, 1)", &move || n.sample(), decl(run, 1, 2, false), q)?;
+                    let s2 = gamma_reps(run, nu / 2.0, 1.0, q)?;
+                    compose(run, &[s1, s2], &move || t.sample())
+                })();
+                judge_composed(run, "T", format!("({}){}", nu, if via { " reached through set_dof" } else { "" }), regime, res, &move |x| t_cdf(nu, x), (f64::NEG_INFINITY, f64::INFINITY), eps, &move || t.sample());
+            });
+        });
+        sc.spawn(|_| poisson_mult(run));
+        sc.spawn(|_| mvn_affine(run));
+        sc.spawn(|_| bulk(run));
     });
-    {
-        let q1 = run.tier.pick(512usize, 1536usize);
-        let (core, u, whole) = (Gamma::new(1.5, 0.5), Uniform::new(0.0, 1.0), ChiSquared::new(1));
-        let res = (|| {
-            let s1 = reps_of(run, "Gamma(1.5, 0.5) [boost core]", &move || core.sample(), decl(run, 1, 4, false), q1)?;
-            let s2 = reps_of(run, "Uniform(0, 1) [boost draw]", &move || u.sample(), decl(run, 0, 1, false), 2 * q1)?;
-            compose(run, &[s1, s2], &move || whole.sample())
-        })();
-        judge_composed(run, "ChiSquared", "(1)".into(), "dof=1 (gamma shape<1)", res, &|x| chi2_cdf(1.0, x), (0.0, f64::INFINITY), eps, &move || whole.sample());
-    }
-    // (the last two pairs are reached through the setters from another parameter pair: the cached
-    // generators must follow)
-    let comps: Vec<(f64, f64, bool)> = vec![(2.0, 4.0, false), (1.0, 1.0, false), (5.0, 1.5, false), (0.5, 0.5, false), (0.2, 3.0, false), (2.0, 4.0, true), (0.5, 3.0, true)];
-    comps.par_iter().for_each(|&(a, b, via)| {
-        let bt = if via {
-            let mut t = Beta::new(b + 0.75, a + 2.0);
-            t.set_alpha(a);
-            t.set_beta(b);
-            t
-        } else {
-            Beta::new(a, b)
-        };
-        let regime = if a < 1.0 || b < 1.0 { "gamma shape<1" } else { "gamma shape>=1" };
-        let res = (|| {
-            let s1 = gamma_reps(run, a, 1.0, q)?;
-            let s2 = gamma_reps(run, b, 1.0, q)?;
-            compose(run, &[s1, s2], &move || bt.sample())
-        })();
-        judge_composed(run, "Beta", format!("({}, {}){}", a, b, if via { " reached through set_alpha, set_beta" } else { "" }), regime, res, &move |x| beta_cdf(a, b, x), (0.0, 1.0), eps, &move || bt.sample());
-    });
-    let nus = [(1.0, false), (2.0, false), (5.0, false), (30.0, false), (5.0, true)];
-    nus.par_iter().for_each(|&(nu, via)| {
-        let t = if via {
-            let mut t = T::new(nu + 1.5);
-            t.set_dof(nu);
-            t
-        } else {
-            T::new(nu)
-        };
-        let n = Normal::default();
-        let regime = if nu < 2.0 { "gamma shape<1" } else { "gamma shape>=1" };
-        let res = (|| {
-            let s1 = reps_of(run, "Normal(0, 1)", &move || n.sample(), decl(run, 1, 2, false), q)?;
-            let s2 = gamma_reps(run, nu / 2.0, 1.0, q)?;
-            compose(run, &[s1, s2], &move || t.sample())
-        })();
-        judge_composed(run, "T", format!("({}){}", nu, if via { " reached through set_dof" } else { "" }), regime, res, &move |x| t_cdf(nu, x), (f64::NEG_INFINITY, f64::INFINITY), eps, &move || t.sample());
-    });
-    poisson_mult(run);
-    mvn_affine(run);
-    bulk(run);
     for r in ["Normal:ziggurat", "Gamma:shape>=1", "Poisson:rate>=10 (PTRS)", "Binomial:BTPE", "Binomial:inversion", "Poisson:rate<10 (multiplication)", "MVN:whitened-dkw", "Beta:gamma shape>=1", "T:gamma shape>=1", "Uniform:inverse-cdf"] {
         run.require_regime(r);
     }
